@@ -716,6 +716,343 @@ static void fam_c18_purge(G& g, Plan& p) {
   if (delay < 0) { P.ops.push_back(mk(OP_free_all)); P.ops.push_back(mk(OP_collect, -1, 1)); P.ops.push_back(mk(OP_purge_check, -1, 2)); }
 }
 
+
+// ---------------------------------------------------------------------------------
+// C03: size and alignment contract, interior pointers
+// ---------------------------------------------------------------------------------
+static void warm_state(G& g, Program& P, int base, int nslots, size_t around) {
+  // bring the page of the size class into some state: empty / partly used / next free block aligned or not / retired
+  int n = (int)g.below(30);
+  for (int i = 0; i < n; i++) {
+    int s = base + (int)g.below((uint64_t)nslots);
+    if (g.chance(0.6)) P.ops.push_back(mk(OP_malloc, s, around > 8 ? around - g.below(9) : around)); else P.ops.push_back(mk(OP_free, s));
+  }
+}
+
+static void fam_c03_align(G& g, Plan& p) {
+  p.nslots = 120; p.progs.resize(1); Program& P = p.progs[0];
+  int K = 6 + (int)g.below(25);
+  for (int k = 0; k < K; k++) {
+    int slot = (int)g.below(60);
+    int mix = SM_SMALL | SM_BOUNDARY | (g.chance(0.5) ? SM_MEDIUM : 0) | (g.chance(0.3) ? SM_LARGE : 0);
+    size_t sz = gen_size(g, mix);
+    size_t al = g.chance(0.12) ? (size_t)1 << (24 + g.below(5)) : g.chance(0.5) ? (size_t)1 << g.below(12) : (size_t)1 << (12 + g.below(12));
+    size_t off = 0;
+    if (al <= 16 * MiB && g.chance(0.5)) { off = g.pick<size_t>({8, 16, 24, 64, 4096, 65536, (sz / 2) & ~(size_t)7, sz & ~(size_t)7}); if (g.build != "DBG" && g.chance(0.4)) off = g.pick<size_t>({1, 3, 5, 12, sz / 2, sz, 100}); if (off > 64 * KiB) off = 64 * KiB; }
+    warm_state(g, P, 60, 60, sz);
+    P.ops.push_back(mk(OP_free, slot));
+    int v = (int)g.below(10); Op o;
+    if (off) o = mk(v < 6 ? OP_malloc_aligned_at : v < 8 ? OP_zalloc_aligned_at : OP_calloc_aligned_at, slot, sz, al, off);
+    else o = mk(v < 4 ? OP_malloc_aligned : v < 5 ? OP_zalloc_aligned : v < 6 ? OP_calloc_aligned : v < 7 ? OP_memalign : v < 8 ? OP_aligned_alloc : v < 9 ? OP_posix_memalign : OP_new_aligned_nothrow, slot, sz, al);
+    if (o.code == OP_calloc_aligned_at) { o.a = 1; o.b = sz; o.c = al; o.d = off; }
+    if (o.code == OP_calloc_aligned) { o.a = 1; o.b = sz; o.c = al; }
+    if (o.code == OP_posix_memalign && al < 8) o.b = 8;
+    if (g.chance(0.3)) { P.ops.push_back(mkh(OP_heap_new, 0)); o.hslot = (o.code == OP_memalign || o.code == OP_aligned_alloc || o.code == OP_posix_memalign || o.code == OP_new_aligned_nothrow) ? -1 : 0; }
+    P.ops.push_back(o);
+    // the pointer is accepted by expand / realloc family / free variants like an ordinary pointer
+    int follow = (int)g.below(4);
+    for (int f = 0; f < follow; f++) {
+      int w = (int)g.below(6);
+      size_t nsz = g.chance(0.5) ? sz + g.below(sz / 2 + 64) : sz - g.below(sz / 2 + 1);
+      size_t ral = al > 4 * MiB ? 4 * MiB : al;
+      if (w == 0) P.ops.push_back(mk(OP_expand, slot, g.chance(0.5) ? sz : sz + g.below(64)));
+      else if (w == 1) P.ops.push_back(mk(OP_realloc_aligned, slot, nsz, ral));
+      else if (w == 2) P.ops.push_back(mk(OP_realloc_aligned_at, slot, nsz, ral, off > 4096 ? 64 : off));
+      else if (w == 3) P.ops.push_back(mk(OP_realloc, slot, nsz));
+      else if (w == 4) P.ops.push_back(mk(OP_rezalloc_aligned, slot, nsz, ral));
+      else P.ops.push_back(mk(OP_verify_all));
+    }
+    if (g.chance(0.6)) P.ops.push_back(gen_free(g, slot));
+    if (g.chance(0.1)) P.ops.push_back(mk(OP_collect, -1, g.below(2)));
+  }
+  P.ops.push_back(mk(OP_verify_all));
+}
+
+// ---------------------------------------------------------------------------------
+// C04: zero-initialising allocation
+// ---------------------------------------------------------------------------------
+static Op gen_zero_alloc(G& g, int slot, size_t sz, int hslot) {
+  int v = (int)g.below(9); Op o;
+  size_t al = (size_t)1 << (3 + g.below(10));
+  switch (v) {
+    case 0: case 1: o = mk(OP_zalloc, slot, sz); break;
+    case 2: { size_t n = 1 + g.below(7); o = mk(OP_calloc, slot, n, sz / n + 1); break; }
+    case 3: o = mk(OP_zalloc_small, slot, sz % (SMALL_MAX + 1)); break;
+    case 4: o = mk(OP_zalloc_aligned, slot, sz, al); break;
+    case 5: o = mk(OP_zalloc_aligned_at, slot, sz, al, g.pick<size_t>({8, 16, 64})); break;
+    case 6: { size_t n = 1 + g.below(5); o = mk(OP_calloc_aligned, slot, n, sz / n + 1, al); break; }
+    case 7: { size_t n = 1 + g.below(5); o = mk(OP_calloc_aligned_at, slot, n, sz / n + 1, al, g.pick<size_t>({8, 32})); break; }
+    default: o = mk(OP_rezalloc, slot, sz); break;   // rezalloc(NULL, n) behaves as a zeroing allocation (slot is empty)
+  }
+  o.hslot = (o.code == OP_zalloc_small) ? -1 : hslot;
+  return o;
+}
+
+static void fam_c04_dirty(G& g, Plan& p) {
+  int how = (int)g.below(6);   // 0 local free, 1 remote free, 2 heap_destroy, 3 purge + recommit (advance clock), 4 abandon + reclaim, 5 donated dirty arena
+  int nt = (how == 1 || how == 4) ? 2 : 1;
+  p.nslots = 300; p.progs.resize((size_t)nt);
+  Program& P0 = p.progs[0];
+  if (how == 3) { set_env(p, "PURGE_DELAY", g.pick({0, 1, 10})); if (g.chance(0.5)) set_env(p, "PURGE_DECOMMITS", 0); p.cfg.madv_free_mode = g.pick({0, 0, 2}); }
+  int mixsel = (int)g.below(10);
+  int mix = mixsel < 6 ? (SM_SMALL | SM_BOUNDARY) : mixsel < 8 ? SM_MEDIUM : mixsel < 9 ? SM_LARGE : SM_HUGE;
+  size_t sz = gen_size(g, mix); if (sz == 0) sz = 24;
+  int n = (mix == SM_HUGE) ? 2 + (int)g.below(3) : (mix == SM_LARGE) ? 4 + (int)g.below(8) : 20 + (int)g.below(120);
+  int hs = -1;
+  if (how == 2) { P0.ops.push_back(mkh(OP_heap_new, 0)); hs = 0; }
+  if (how == 5) { Op a = mk(OP_manage_arena, 0, (64 + 32 * g.below(3)) * MiB, 1 /*committed*/ | (g.chance(0.5) ? 2 : 0) /*exclusive*/, g.chance(0.5) ? 0 : 4096 * (1 + g.below(100))); P0.ops.push_back(a); P0.ops.push_back(mkh(OP_heap_new_in_arena, 1, 0)); hs = 1; if (sz > 8 * MiB) sz = 8 * MiB; }
+  if (how == 4) {
+    // the dirtying thread exits with one block still live; the zeroing thread reclaims its segment
+    P0.ops.push_back(mk(OP_spawn, 1));
+    Program& P1 = p.progs[1];
+    for (int i = 0; i < n; i++) P1.ops.push_back(mk(OP_malloc, i, sz));
+    for (int i = 1; i < n; i++) P1.ops.push_back(mk(OP_free, i));
+    P0.ops.push_back(mk(OP_join, 1));
+    if (g.chance(0.5)) P0.ops.push_back(mk(OP_free, 0));
+  } else {
+    for (int i = 0; i < n; i++) { Op o = mk(OP_malloc, i, sz - (sz > 16 ? g.below(8) : 0)); o.hslot = hs; if (how == 5) o.flags |= OPF_MAY_FAIL; P0.ops.push_back(o); }
+    if (how == 1) { P0.ops.push_back(mk(OP_spawn, 1)); for (int i = 0; i < n; i++) p.progs[1].ops.push_back(mk(OP_free, i)); P0.ops.push_back(mk(OP_join, 1)); }
+    else if (how == 2) { P0.ops.push_back(mkh(OP_heap_destroy, 0)); hs = -1; }
+    else { int keep = g.chance(0.3) ? 1 + (int)g.below(3) : 0; for (int i = keep; i < n; i++) P0.ops.push_back(mk(OP_free, i)); }
+    if (how == 3) { P0.ops.push_back(mk(OP_advance, -1, g.pick<uint64_t>({11, 20, 200}))); P0.ops.push_back(mk(OP_collect, -1, g.below(2))); P0.ops.push_back(mk(OP_malloc, 290, 64)); P0.ops.push_back(mk(OP_free, 290)); }
+  }
+  if (g.chance(0.3)) P0.ops.push_back(mk(OP_collect, -1, g.below(2)));
+  for (int i = 0; i < n + 10; i++) { Op o = gen_zero_alloc(g, 100 + (i % 180), sz - (sz > 32 ? g.below(16) : 0), hs); if (how == 5) o.flags |= OPF_MAY_FAIL; P0.ops.push_back(o); }
+  P0.ops.push_back(mk(OP_verify_all));
+}
+
+// monotone growth chains starting from a zeroing allocation
+static void fam_c04_grow(G& g, Plan& p) {
+  p.nslots = 60; p.progs.resize(1); Program& P = p.progs[0];
+  int chains = 1 + (int)g.below(5);
+  if (g.chance(0.3)) P.ops.push_back(mkh(OP_heap_new, 0));
+  for (int c = 0; c < chains; c++) {
+    int slot = c;
+    // dirty the neighbourhood first
+    for (int i = 0; i < (int)g.below(20); i++) { int s = 20 + (int)g.below(30); P.ops.push_back(g.chance(0.6) ? mk(OP_malloc, s, gen_size(g, SM_SMALL | SM_MEDIUM)) : mk(OP_free, s)); }
+    size_t sz = g.chance(0.7) ? 1 + g.below(200) : gen_size(g, SM_SMALL | SM_MEDIUM);
+    int hs = g.chance(0.3) ? 0 : -1;
+    P.ops.push_back(gen_zero_alloc(g, slot, sz, hs));
+    int steps = 2 + (int)g.below(12);
+    size_t al = g.chance(0.3) ? (size_t)1 << (4 + g.below(10)) : 0;
+    for (int k = 0; k < steps; k++) {
+      int how = (int)g.below(5);
+      size_t grow = how == 0 ? 1 + g.below(8) : how == 1 ? sz / 8 + 1 : how == 2 ? sz + g.below(sz + 8) : how == 3 ? g.below(64 * KiB) : g.below(3 * MiB);
+      sz += grow; if (sz > 40 * MiB) break;
+      int v = (int)g.below(al ? 6 : 3); Op o;
+      if (v == 0 || v == 1) o = mk(OP_rezalloc, slot, sz);
+      else if (v == 2) { size_t n = 1 + g.below(4); sz = (sz / n + 1) * n; o = mk(OP_recalloc, slot, n, sz / n); }
+      else if (v == 3) o = mk(OP_rezalloc_aligned, slot, sz, al);
+      else if (v == 4) o = mk(OP_rezalloc_aligned_at, slot, sz, al, 0);
+      else { size_t n = 1 + g.below(4); sz = (sz / n + 1) * n; o = mk(OP_recalloc_aligned, slot, n, sz / n, al); }
+      o.hslot = hs; P.ops.push_back(o);
+      if (g.chance(0.2)) { int s = 20 + (int)g.below(30); P.ops.push_back(mk(OP_malloc, s, gen_size(g, SM_SMALL | SM_MEDIUM))); }
+    }
+  }
+  P.ops.push_back(mk(OP_verify_all));
+}
+
+// ---------------------------------------------------------------------------------
+// C05: re-allocation
+// ---------------------------------------------------------------------------------
+static void fam_c05_realloc(G& g, Plan& p) {
+  p.nslots = 80; p.progs.resize(1); Program& P = p.progs[0];
+  bool with_faults = g.chance(0.25);
+  int nh = g.chance(0.4) ? 2 : 0;
+  if (nh) { P.ops.push_back(mkh(OP_heap_new, 0)); P.ops.push_back(mkh(OP_heap_new, 1)); }
+  int K = 20 + (int)g.below(120);
+  int mix = SM_SMALL | SM_BOUNDARY | SM_ZERO | (g.chance(0.6) ? SM_MEDIUM : 0) | (g.chance(0.4) ? SM_LARGE : 0) | (g.chance(0.15) ? SM_HUGE : 0);
+  for (int k = 0; k < K; k++) {
+    int slot = (int)g.below(40); int x = (int)g.below(100);
+    if (x < 25) P.ops.push_back(gen_alloc(g, slot, mix, nh, true));
+    else if (x < 40) P.ops.push_back(gen_free(g, slot));
+    else if (x < 44) P.ops.push_back(mk(OP_collect, -1, g.below(2)));
+    else if (x < 48) { Op o = mk(OP_reallocn, slot, SIZE_MAX / 2 + g.below(1000), 2 + g.below(8)); P.ops.push_back(o); }                   // overflowing count*size: must fail, block untouched
+    else if (x < 50) { Op o = mk(g.chance(0.5) ? OP_recalloc : OP_reallocarray, slot, (uint64_t)1 << 40, (uint64_t)1 << 40); o.hslot = -1; P.ops.push_back(o); }
+    else {
+      Op o = gen_realloc(g, slot, mix, nh, true);
+      if (with_faults && g.chance(0.15)) { OpFault f; f.kind = OS_MMAP; f.nth = 0; f.persistent = false; o.faults.push_back(f); o.flags |= OPF_MAY_FAIL; if (g.chance(0.5)) { OpFault f2; f2.kind = OS_MPROTECT_RW; f2.nth = 0; o.faults.push_back(f2); } }
+      P.ops.push_back(o);
+    }
+  }
+  P.ops.push_back(mk(OP_verify_all));
+}
+
+// ---------------------------------------------------------------------------------
+// C06: malformed or oversized requests in the middle of histories
+// ---------------------------------------------------------------------------------
+static void fam_c06_badreq(G& g, Plan& p) {
+  p.nslots = 80; p.progs.resize(1); Program& P = p.progs[0];
+  int K = 30 + (int)g.below(150);
+  int mix = SM_SMALL | SM_BOUNDARY | SM_ZERO | (g.chance(0.5) ? SM_MEDIUM : 0) | (g.chance(0.3) ? SM_LARGE : 0);
+  if (g.chance(0.3)) { P.ops.push_back(mkh(OP_heap_new, 0)); P.ops.push_back(mkh(OP_heap_set_default, 0)); }
+  for (int k = 0; k < K; k++) {
+    int slot = (int)g.below(60); int x = (int)g.below(100);
+    if (x < 35) P.ops.push_back(gen_alloc(g, slot, mix, 0, true));
+    else if (x < 50) P.ops.push_back(gen_free(g, slot));
+    else if (x < 56) P.ops.push_back(gen_realloc(g, slot, mix, 0, false));
+    else { int kind = (int)g.below(30); if (g.build == "DBG" && (kind == 6 || kind == 26)) kind = 7; P.ops.push_back(mk(OP_bad_request, slot, (uint64_t)kind, 1 + g.below(5000))); }
+  }
+  P.ops.push_back(mk(OP_verify_all));
+}
+
+// well-formed requests of moderate size must succeed when the OS refuses nothing
+static void fam_c06_wellformed(G& g, Plan& p) {
+  p.nslots = 40; p.progs.resize(1); Program& P = p.progs[0];
+  int K = 10 + (int)g.below(40);
+  for (int k = 0; k < K; k++) {
+    int slot = (int)g.below(40);
+    if (g.chance(0.4)) { P.ops.push_back(mk(OP_free, slot)); continue; }
+    size_t sz = g.chance(0.5) ? gen_size(g, SM_ALL) : (size_t)(g.below(256) * MiB + g.below(MiB));
+    if (sz > 256 * MiB) sz = 256 * MiB;
+    if (g.chance(0.5)) P.ops.push_back(mk(g.chance(0.2) ? OP_zalloc : OP_malloc, slot, sz));
+    else { size_t al = (size_t)1 << g.below(29); Op o = mk(g.chance(0.8) ? OP_malloc_aligned : OP_zalloc_aligned, slot, sz, al); P.ops.push_back(o); }
+  }
+}
+
+// ---------------------------------------------------------------------------------
+// C12: heap walking
+// ---------------------------------------------------------------------------------
+static void fam_c12_holes(G& g, Plan& p) {
+  p.nslots = 700; p.progs.resize(1); Program& P = p.progs[0];
+  int nh = 1 + (int)g.below(3);
+  for (int h = 0; h < nh; h++) if (h > 0 || g.chance(0.5)) P.ops.push_back(mkh(OP_heap_new, h));
+  int groups = 1 + (int)g.below(4); int base = 0;
+  for (int gi = 0; gi < groups && base < 600; gi++) {
+    int hs = g.chance(0.4) ? -1 : (int)g.below((uint64_t)nh);
+    int kind = (int)g.below(10);
+    if (kind < 6) {
+      auto bs = bin_sizes(); size_t b = bs[g.below(52)]; size_t req = (g.padded && b > 8) ? b - 8 : b;
+      size_t cap = (b <= 8 * KiB ? 64 * KiB : 512 * KiB) / b;
+      // capacity relative to 64: exactly a multiple, one less, one more, partial
+      int n = (int)(g.chance(0.3) ? (cap / 64) * 64 : g.chance(0.5) ? cap : g.below(cap * 2 + 2)); if (n > 250) n = 64 * (int)(1 + g.below(3)); if (n < 1) n = 1;
+      if (base + n > 690) n = 690 - base;
+      for (int i = 0; i < n; i++) { Op o = mk(g.chance(0.05) ? OP_zalloc : OP_malloc, base + i, req); o.hslot = hs; P.ops.push_back(o); }
+      int pat = (int)g.below(5);
+      for (int i = 0; i < n; i++) { bool fr = pat == 0 ? false : pat == 1 ? true : pat == 2 ? (i % (2 + (int)g.below(2))) == 0 : pat == 3 ? g.chance(0.5) : (i < n / 2); if (fr) P.ops.push_back(mk(OP_free, base + i)); }
+      base += n;
+    } else if (kind < 8) {   // aligned blocks: interior pointers
+      int n = 3 + (int)g.below(10);
+      for (int i = 0; i < n; i++) { Op o = mk(OP_malloc_aligned, base + i, 1 + g.below(5000), (size_t)1 << (5 + g.below(12))); o.hslot = hs; P.ops.push_back(o); if (g.chance(0.3)) P.ops.push_back(mk(OP_free, base + (int)g.below((uint64_t)i + 1))); }
+      base += n;
+    } else {   // single-block pages: large and huge
+      int n = 1 + (int)g.below(4);
+      for (int i = 0; i < n; i++) { Op o = mk(OP_malloc, base + i, g.chance(0.5) ? 100 * KiB + g.below(4 * MiB) : 17 * MiB + g.below(30 * MiB)); o.hslot = hs; P.ops.push_back(o); }
+      if (g.chance(0.5)) P.ops.push_back(mk(OP_free, base));
+      base += n;
+    }
+    if (g.chance(0.4)) P.ops.push_back(mkh(OP_visit_heap, hs, -1, g.below(1000)));
+  }
+  for (int h = -1; h < nh; h++) P.ops.push_back(mkh(OP_visit_heap, h, -1, g.below(1000)));
+  if (g.chance(0.3)) { P.ops.push_back(mkh(OP_heap_delete, 1)); P.ops.push_back(mkh(OP_visit_heap, -1, -1, g.below(1000))); }
+  P.ops.push_back(mk(OP_verify_all));
+}
+
+// remote frees that have been collected by the owner before the walk
+static void fam_c12_remote(G& g, Plan& p) {
+  int nt = 2 + (int)g.below(2);
+  p.nslots = 300; p.progs.resize((size_t)nt); Program& P0 = p.progs[0];
+  size_t req = class_req(g, 44); int n = 40 + (int)g.below(200);
+  int hs = g.chance(0.5) ? 0 : -1; if (hs == 0) P0.ops.push_back(mkh(OP_heap_new, 0));
+  for (int i = 0; i < n; i++) { Op o = mk(OP_malloc, i, req); o.hslot = hs; P0.ops.push_back(o); }
+  spawn_all(p, nt, true, g);
+  for (int i = 0; i < n; i++) if (g.chance(0.6)) p.progs[(size_t)(1 + g.below((uint64_t)nt - 1))].ops.push_back(mk(OP_free, i));
+  for (int i = 0; i < 20; i++) P0.ops.push_back(g.chance(0.5) ? mk(OP_free, (int)g.below((uint64_t)n)) : mkh(OP_heap_collect, hs, -1, 0));
+  for (int t = 1; t < nt; t++) P0.ops.push_back(mk(OP_join, t));
+  P0.ops.push_back(mkh(OP_heap_collect, hs, -1, g.below(2)));     // the property's precondition: no pending cross-thread frees
+  P0.ops.push_back(mkh(OP_visit_heap, hs, -1, g.below(1000)));
+  P0.ops.push_back(mk(OP_verify_all));
+}
+
+
+// ---------------------------------------------------------------------------------
+// C07: base workloads for the fault enumeration (deterministic per seed), and random multi-fault plans
+// ---------------------------------------------------------------------------------
+static void c07_tail(G& g, Plan& p, Program& P0) {
+  // after the faults: the OS grants everything again; a fixed probe sequence must succeed and everything is given back
+  P0.ops.push_back(mk(OP_heal_os));
+  size_t probes[] = {48, 3000, 40 * KiB, 300 * KiB, 5 * MiB, 40 * MiB};
+  int s0 = p.nslots - 8;
+  for (int i = 0; i < 6; i++) { Op o = mk(i == 1 ? OP_zalloc : OP_malloc, s0 + i, probes[i]); o.flags = OPF_MUST_SUCCEED; P0.ops.push_back(o); }
+  P0.ops.push_back(mk(OP_verify_all));
+  P0.ops.push_back(mk(OP_free_all));
+  P0.ops.push_back(mk(OP_giveback_check, -1, 4));
+  (void)g;
+}
+
+static void fam_c07_base(G& g, Plan& p) {
+  int variant = (int)(p.seed % 10);
+  p.cfg.strategy = ST_NONE; p.cfg.harness_p = 0; p.cfg.spurious_p = 0; p.cfg.tick_ns = 0;
+  p.cfg.place_policy = 0; p.cfg.madv_free_mode = 1; p.cfg.overcommit = 0; p.cfg.thp_einval = 0; p.cfg.entropy_fail = 0;
+  p.env.clear();
+  p.expect_no_null = true;
+  p.nslots = 120; p.progs.resize(variant == 5 ? 2 : 1);
+  Program& P0 = p.progs[0];
+  if (variant == 6) set_env(p, "ARENA_RESERVE", "64MiB");
+  if (variant == 7) p.cfg.overcommit = 2;
+  if (variant == 8) set_env(p, "ARENA_EAGER_COMMIT", 0);
+  if (variant == 9) set_env(p, "EAGER_COMMIT", 0);
+  if (g.chance(0.3)) set_env(p, "PURGE_DELAY", 0);
+  int n = 30 + (int)g.below(70);
+  for (int i = 0; i < n; i++) {
+    int slot = (int)g.below(100); int k = (int)g.below(100);
+    size_t sz;
+    switch (variant) {
+      case 0: sz = gen_size(g, SM_SMALL | SM_BOUNDARY); break;
+      case 1: sz = 200; break;
+      case 2: sz = gen_size(g, SM_MEDIUM | SM_LARGE); break;
+      case 3: sz = (i % 7 == 0) ? gen_size(g, SM_HUGE) : gen_size(g, SM_SMALL | SM_MEDIUM); break;
+      case 4: sz = 1 + g.below(2 * MiB); break;
+      default: sz = gen_size(g, SM_SMALL | SM_MEDIUM | SM_LARGE | ((i % 11) == 0 ? SM_HUGE : 0)); break;
+    }
+    Op o;
+    if (variant == 1) o = (i < n * 2 / 3) ? mk(OP_malloc, i % 100, sz) : mk(OP_free, (i * 7) % 100);
+    else if (k < 30) o = mk(OP_free, slot);
+    else if (k < 36) o = mk(OP_realloc, slot, sz);
+    else if (k < 40) o = mk(OP_collect, -1, g.below(2));
+    else if (k < 43) o = mk(OP_advance, -1, 11);
+    else if (variant == 4 && (i % 5) == 0) o = mk(OP_malloc_aligned, slot, sz, (size_t)1 << (25 + g.below(3)));
+    else o = mk(g.chance(0.15) ? OP_zalloc : OP_malloc, slot, sz);
+    P0.ops.push_back(o);
+    if (variant == 5 && i == n / 3) P0.ops.push_back(mk(OP_spawn, 1));
+    if (variant == 5 && i == 2 * n / 3) P0.ops.push_back(mk(OP_join, 1));
+  }
+  if (variant == 5) { Program& P1 = p.progs[1]; P1.explicit_done = g.chance(0.5); for (int i = 0; i < 30; i++) { int slot = (int)g.below(100); P1.ops.push_back(g.chance(0.55) ? mk(OP_malloc, slot, gen_size(g, SM_SMALL | SM_MEDIUM | SM_LARGE)) : mk(OP_free, slot)); } }
+  c07_tail(g, p, P0);
+}
+
+static void fam_c07_random(G& g, Plan& p) {
+  p.cfg.madv_free_mode = (int)g.below(3);
+  int nt = g.chance(0.3) ? 2 : 1;
+  p.nslots = 120; p.progs.resize((size_t)nt);
+  Program& P0 = p.progs[0];
+  if (nt > 1) P0.ops.push_back(mk(OP_spawn, 1));
+  int mix = SM_SMALL | SM_BOUNDARY | SM_MEDIUM | (g.chance(0.6) ? SM_LARGE : 0) | (g.chance(0.4) ? SM_HUGE : 0);
+  for (int t = 0; t < nt; t++) {
+    Program& P = p.progs[(size_t)t]; int n = 30 + (int)g.below(100);
+    bool persist_on = false;
+    for (int i = 0; i < n; i++) {
+      int slot = (int)g.below(100); int k = (int)g.below(100); Op o;
+      if (k < 30) o = mk(g.chance(0.7) ? OP_free : OP_free_size, slot);   // not mi_cfree: it ignores pointers it cannot look up (segment map allocation may have been refused)
+      else if (k < 38) o = gen_realloc(g, slot, mix & ~SM_HUGE, 0, false);
+      else if (k < 42) o = mk(OP_collect, -1, g.below(2));
+      else if (k < 45) o = mk(OP_advance, -1, g.pick<uint64_t>({1, 11, 200}));
+      else if (k < 47 && persist_on) { o = mk(OP_heal_os); persist_on = false; }
+      else o = gen_alloc(g, slot, mix, 0, true);
+      if (g.chance(0.08) && o.code != OP_heal_os) {
+        OpFault f; f.kind = g.pick({(int)OS_MMAP, (int)OS_MMAP, (int)OS_MPROTECT_RW, (int)OS_MPROTECT_NONE, (int)OS_MADV_DONTNEED, (int)OS_MADV_FREE, (int)OS_MUNMAP, -1});
+        if (g.build == "DBG" && f.kind != OS_MMAP) f.kind = OS_MMAP;     // the debug build asserts on a failing decommit by design
+        f.nth = (int)g.below(3); f.err = (f.kind == OS_MADV_FREE && g.chance(0.5)) ? 11 /*EAGAIN*/ : 12;
+        f.persistent = g.chance(0.2); if (f.persistent) persist_on = true;
+        o.faults.push_back(f); o.flags |= OPF_MAY_FAIL;
+      }
+      P.ops.push_back(o);
+    }
+  }
+  if (nt > 1) P0.ops.push_back(mk(OP_join, 1));
+  c07_tail(g, p, P0);
+}
+
 // ---------------------------------------------------------------------------------
 // registry
 // ---------------------------------------------------------------------------------
@@ -738,6 +1075,16 @@ static const FamilyDef FAMILIES[] = {
   {"c10_concurrent", "C10", fam_c10_concurrent, 1, true},
   {"c11_repeat", "C11", fam_c11_repeat, 0, true},
   {"c18_purge", "C18", fam_c18_purge, 0, false},
+  {"c07_base", "C07", fam_c07_base, 0, false},
+  {"c07_random", "C07", fam_c07_random, 1, false},
+  {"c03_align", "C03", fam_c03_align, 1, false},
+  {"c04_dirty", "C04", fam_c04_dirty, 1, true},
+  {"c04_grow", "C04", fam_c04_grow, 1, false},
+  {"c05_realloc", "C05", fam_c05_realloc, 1, false},
+  {"c06_badreq", "C06", fam_c06_badreq, 1, false},
+  {"c06_wellformed", "C06", fam_c06_wellformed, 1, false},
+  {"c12_holes", "C12", fam_c12_holes, 1, false},
+  {"c12_remote", "C12", fam_c12_remote, 1, true},
 };
 
 std::vector<std::string> family_list() { std::vector<std::string> v; for (auto& f : FAMILIES) v.push_back(f.name); return v; }
